@@ -42,6 +42,17 @@ Section C15Concrete.
   Proof. exact (c_integrate_T0 fuel tf). Qed.
   Theorem C15_concrete_H_pulse0 : forall d srcs dst fs s, Forall (fun f => f = 0) fs -> c_pulse d srcs dst fs s = s.
   Proof. exact (c_pulse_zero ovf quad). Qed.
+  (** ... and the third (rule [fuse]): directly after the first split a third population created by admixture in ANY proportion
+      is the split of population 2 -- phi_1D_to_2D leaves the density on the diagonal, where f x + (1 - f) x = x; off the
+      diagonal a zero entry deposits zeros wherever it lands (any state: a split that does not apply gives the error state) *)
+  Theorem C15_concrete_H_admix_diag : forall f s, c_admixnew 2 [f] (c_split 1 0 s) = c_split 2 1 (c_split 1 0 s).
+  Proof. exact c_admix_diag. Qed.
+  (** the fact about the building blocks behind it: on the output of phi_1D_to_2D the new-population constructor does not
+      depend on the proportion *)
+  Theorem C15_admix_of_fresh_split_any_proportion : forall (g phi : list R) (f f' : R),
+    PhiManip.new_pop [length g; length g] [g; g] (PhiManip.coefs_of [f]) g (PhiManip.phi_1D_to_2D g phi) =
+    PhiManip.new_pop [length g; length g] [g; g] (PhiManip.coefs_of [f']) g (PhiManip.phi_1D_to_2D g phi).
+  Proof. exact new_pop_diag. Qed.
 
   (** hence the soundness theorems hold of the concrete semantics without hypotheses on the numerical layer *)
   Theorem C15_concrete_norm_sound : forall A env, env_ok A env -> forall p s, csemp (norm A p) env s = csemp p env s.
@@ -110,6 +121,7 @@ Proof. exact phi_1D_rescale. Qed.
 Print Assumptions C15_exec_is_sem.
 Print Assumptions C15_concrete_H_T0.
 Print Assumptions C15_concrete_H_pulse0.
+Print Assumptions C15_concrete_H_admix_diag.
 Print Assumptions C15_run_prog_nesting_sound.
 Print Assumptions C15_run_prog_nesting2_sound.
 Print Assumptions C15_run_prog_params_only.
